@@ -451,6 +451,12 @@ def one_transaction_per_request():
                           and ast.unparse(c.func).split(".")[-1] in openers]
         out.append((f"handlers/{h.name}/no_writing_transaction_inside_a_loop", not looped and not looped_openers,
                     f"writing span(s) at relative line(s) {looped} / awaited {looped_openers} inside a loop of the handler"))
+        # what the writing span relies on was read inside it: a span that ends before the writing one starts (validate,
+        # release the lock, then write) lets another request change the graph in between, and the two are applied
+        # although neither serial order accepts both
+        earlier = [b.lineno - h.lineno for w in writing_blocks for b in blocks if b is not w and b.lineno < w.lineno]
+        out.append((f"handlers/{h.name}/nothing_is_read_in_an_earlier_transaction", not earlier,
+                    f"span(s) at relative line(s) {earlier} end before the writing span starts"))
         # a rejection has to leave the span as an exception: DBSession.__aexit__ rolls back only then.  An except clause
         # (or contextlib.suppress) inside the span that ends without raising lets the span commit what was written
         # before the rejection
